@@ -1098,3 +1098,17 @@ def slice_ascii(e, c, a):
 def fn_call(e, c, a):
     args = a[1].f if isinstance(a[1], Agg) else [a[1]]
     return e.call_closure(a[0], list(args))
+
+
+# ---------------------------------------------------------------------- rayon: order-preserving sequential model
+@model(r" as (rayon::iter::)?IntoParallelRefIterator<'_>>::par_iter$| as (rayon::iter::)?IntoParallelRefMutIterator<'_>>::par_iter_mut$")
+def rayon_par_iter(e, c, a):
+    return SliceIt(e.as_slice(a[0]))
+
+
+@model(r" as (rayon::iter::)?IntoParallelIterator>::into_par_iter$")
+def rayon_into_par_iter(e, c, a):
+    return as_iter(e, a[0])
+
+
+model(r" as (rayon::iter::)?(ParallelIterator|IndexedParallelIterator)>::\w+(::<.*>)?$", "rayon_iterator")(iter_dispatch)
